@@ -41,15 +41,22 @@ fn note_alloc(n: usize) {
             }
         });
     });
-    let g = LIVE_GLOBAL.fetch_add(n, Ordering::Relaxed) + n;
-    if g > CAP.load(Ordering::Relaxed) {
-        unsafe { _exit(EXIT_CAPPED) }
+    // the process-wide counter is a contended cache line: only maintained when a cap is set
+    let cap = CAP.load(Ordering::Relaxed);
+    if cap != usize::MAX {
+        let g = LIVE_GLOBAL.fetch_add(n, Ordering::Relaxed) + n;
+        if g > cap {
+            unsafe { _exit(EXIT_CAPPED) }
+        }
     }
 }
 #[inline]
 fn note_free(n: usize) {
     let _ = LIVE.try_with(|l| l.set(l.get() - n as i64));
-    LIVE_GLOBAL.fetch_sub(n, Ordering::Relaxed);
+    if CAP.load(Ordering::Relaxed) != usize::MAX {
+        // saturating: frees of blocks allocated before the cap was set
+        let _ = LIVE_GLOBAL.fetch_update(Ordering::Relaxed, Ordering::Relaxed, |v| Some(v.saturating_sub(n)));
+    }
 }
 
 unsafe impl GlobalAlloc for Counting {
